@@ -19,7 +19,7 @@ RULE = ("operation sequences (typed set, unchecked set excluded, bit set, bit cl
 EXHAUSTIVE = {"quick": False, "thorough": False}
 ASSUMPTIONS = ["model assumptions as for C01", "sanitise part: tables whose registers use no/min/max/range/callback constraints (an always-fail register cannot be reset to its default after initialisation)"]
 TRUSTED = ["correspondence harness harness/h_regtable.c + tools/lib/vf.py"]
-DESIGN_REF = "DESIGN.md section 8, C05"
+DESIGN_REF = "DESIGN.md section 0.2 (as built) and section 8, C05"
 TECHNIQUE = "Lean 4 invariant proof by induction over operation histories of the register-table model (typed set, bit set/clear, block write, sanitise: constraints hold after every checked operation, refused operations change nothing; sanitise loop invariant from arbitrary storage content) + random/biased histories with out-of-band corruption in the differential correspondence"
 LEVEL_TEXT = ("Machine-checked proof over the Lean model: history_preserves_constraints - from a table in the state register_init leaves (structure + every register satisfying its "
               "constraint; goodTable_good shows the state is inhabited) every history of typed sets, bit set/clear, block writes and sanitise runs keeps every register decoding and "
